@@ -1,1234 +1,70 @@
 """C12 - by-ID operations always act on the object's current contents.
 
-Relations (each applies a random history of public operations to ONE real object and, after
-every operation, records what is visible: contents, returned copy / result, or the exception
-that ended the history; for every by-ID operation and every (re-)load the same call is also
-applied to a fresh object built from the same logical content)
+Relations (each applies a random history of public operations to a real object AND the objects
+that history creates - the copies subset() returns, the objects merge_variants() / merge() build -
+and, after every operation, records what is visible: contents, returned object / result, or the
+exception; a ValueError is caught and the history goes on, any other exception ends it; for
+every by-ID operation, every (re-)load and every merge the same call is also applied to fresh
+objects built from the same logical content)
   geno  : Genotypes / GenotypesVCF / GenotypesPLINK / GenotypesAncestry
           (read all|subset, subset in place|copy by samples and/or variants, index,
-           check_missing / check_biallelic / check_maf with discard)
+           check_missing / check_biallelic / check_maf with and without discard, check_sorted,
+           PhenoSimulator.run, Haplotypes.transform on the object, merge_variants)
   pheno : Phenotypes / Covariates (read, subset by samples and/or names, index,
-          check_missing with discard, append)
-  haps  : Haplotypes (read all|subset, subset in place|copy, sort, index, transform)
+          check_missing with and without discard, append of new and of present names)
+  haps  : Haplotypes (read all|subset, subset in place|copy, sort, index, transform, merge)
 """
-import copy
-import os
-import shutil
-import tempfile
-
-import numpy as np
-
-from . import coqlit as L
-from .c13 import Shared, tab_term, write_anc_vcf, write_vcf
-from .core import Relation, err_kind
+from .c12_geno import Geno
+from .c12_haps import Haps
+from .c12_pheno import Pheno
+from .c12_util import STRICT_APPEND_PRESENT_NAME, STRICT_INDEX_AFTER_DUPLICATES  # noqa: F401  (documented there)
 
 PROP = "C12"
 CLAIMED = True
-COQ_MODULES = ["GenoTable", "C13_Model", "C13_Check", "C13_Proofs", "C13_Sound", "C12_Model", "C12_Check", "C12_Proofs", "C12_Sound"]
+COQ_MODULES = ["GenoTable", "C13_Model", "C13_Check", "C13_Proofs", "C13_Sound", "C12_Model", "C12_Check", "C12_Proofs", "C12_Proofs2",
+               "C12_Sound"]
 PROPERTY_MODULE = "C12_Property"
 ALLOWED_AXIOMS = []
 RULE = (
-    "histories of 2-9 operations on an object AND the copies its subsets return (switching between them; streams: "
-    "random with switches, permuted = index -> in-place subset keeping every ID reordered -> look-ups, two-objects = "
-    "index -> copy of one axis -> change one object -> look-ups on the other; and targeted: build an index, change the contents with one chosen mutator - "
-    "re-read, in-place subset, QC discard that does discard, append, sort - then look IDs up) over a generated small file (3-4 samples x 3-5 variants VCF.gz+tbi / PGEN / "
-    "VCF with POP; 3-4 x 2-3 .pheno/.covar; 3-6 record .hap), first operation a read; requests mix present IDs, IDs "
-    "dropped by an earlier step and IDs never present. Non-trivial = the history contains a by-ID operation (subset / "
-    "transform) that comes after an operation which changed the contents since the index was last built (re-read, "
-    "in-place subset, discard, append, sort), or a by-ID operation on one object after its copy/parent was changed. Distinct = distinct canonical JSON."
+    "histories of 2-12 operations on an object AND the objects the history creates - the copies its subsets return, the "
+    "objects merge_variants / merge build - switching between them; a ValueError is caught and the history goes on. "
+    "Streams: random with switches; targeted = build an index, change the contents with one chosen mutator (re-read, "
+    "in-place subset, QC discard that does discard, append, sort), look IDs up; permuted = index -> in-place subset "
+    "keeping every ID reordered -> look-ups; two-objects = index -> copy of one axis -> change one object -> look-ups on "
+    "the other; merged = copies by variants (haplotype IDs) -> merge -> change a source or the merged object -> look-ups "
+    "on the others; after-error = an operation that raises ValueError (check without discard on an offender, check_sorted "
+    "after a reordering subset, merge of objects with different samples, append of a column of the wrong length), then "
+    "look-ups; duplicate-ids = a VCF / .pheno file (or an in-memory repeat table, or a merge of overlapping copies) "
+    "holding an ID twice: the look-up raises, more look-ups follow; append-present-name = name index built or not, "
+    "append() of a name already there, look-ups. Files: 3-4 samples x 3-5 variants VCF.gz+tbi / PGEN written with "
+    "pgenlib (missing and multiallelic calls in both) / VCF with POP / in-memory GenotypesTR table; 3-4 x 2-3 "
+    ".pheno/.covar; 3-6 record .hap (with an ancestry column for HaplotypesAncestry); first operation a read; requests "
+    "mix present IDs, IDs dropped by an earlier step and IDs never present. By-ID operations: subset by sample / variant "
+    "/ name / haplotype ID, PhenoSimulator.run (noise-free, beta = 4^k so that the result names the columns used), "
+    "Haplotypes.transform (on a haplotypes object, and of a one-haplotype object on the genotypes object). Non-trivial = "
+    "the history contains a by-ID operation that comes after an operation which changed the contents since the index "
+    "was last built, or a by-ID operation on one object after another object of the history was changed, or a by-ID "
+    "operation after a caught exception. Distinct = distinct canonical JSON."
 )
 TRUSTED = [
     "cyvcf2 / pgenlib / csv readers: the file content the model starts from is what a fresh full read() returns",
     "the fresh object is built by the harness (new instance + copies of the arrays, or new instance + same read())",
     "float64 phenotype values are small integers in the generated files and carried as integers",
+    "GenotypesTR objects are handed their arrays in memory (no TRTools-readable VCF is generated): their histories "
+    "contain no re-read",
 ]
 ASSUMPTIONS = [
-    "an exception ends a history (objects are not used after a failed call)",
-    "Phenotypes.append is given a name that is not already present (with a duplicate name the code's behaviour "
-    "depends on whether the name index was already built; see the report)",
-    "IDs in files are distinct",
+    "a ValueError is caught and the history goes on with the same objects; any other exception ends the history",
+    "switch STRICT_INDEX_AFTER_DUPLICATES (off = the tree as it is): index() leaves the dictionary in which it found "
+    "duplicate IDs behind when it raises; with the switch off the model does the same and holds does not consult the "
+    "fresh object for operations on an object whose index() has raised, until that object is re-read "
+    "(fixes/C12_index_duplicates.patch; corpus/C12/*_index_keeps_duplicates_after_valueerror.json)",
+    "switch STRICT_APPEND_PRESENT_NAME (off = the tree as it is): Phenotypes.append() of a name the object already "
+    "holds points an existing name index at the new column; with the switch off the model does the same and holds does "
+    "not consult the fresh object for operations on that object until it is re-read "
+    "(fixes/C12_append_present_name.patch; corpus/C12/pheno_append_present_name_with_index.json)",
+    "sample IDs are distinct in VCF / PGEN files (the readers refuse anything else); read(variants=...) is given a set",
 ]
-GCLASSES = ["Genotypes", "GenotypesVCF", "GenotypesPLINK", "GenotypesAncestry"]
-POPS = ["A", "B", "C"]
-
-
-def optzl(x):
-    return "None" if x is None else f"(Some {L.zl(x)})"
-
-
-def quiet_log():
-    import logging
-
-    log = logging.getLogger("hv_c12")
-    log.setLevel(logging.CRITICAL + 1)
-    return log
-
-
-# ---------------------------------------------------------------------------
-# genotypes
-
-
-def gclass(name):
-    from haptools import data as hd
-    from haptools.transform import GenotypesAncestry
-
-    return {"Genotypes": hd.Genotypes, "GenotypesVCF": hd.GenotypesVCF, "GenotypesPLINK": hd.GenotypesPLINK,
-            "GenotypesAncestry": GenotypesAncestry}[name]
-
-
-def write_geno_file(inp, d):
-    from haptools import data as hd
-
-    t = inp["file"]
-    if inp["cls"] == "GenotypesAncestry":
-        path = os.path.join(d, "in.vcf.gz")
-        write_anc_vcf(path, t)
-        return path
-    path = os.path.join(d, "in.vcf.gz")
-    write_vcf(path, t["samples"], t["variants"], t["rows"])
-    if inp["cls"] == "GenotypesPLINK":
-        g = hd.GenotypesVCF(path, log=quiet_log())
-        g.read()
-        pg = hd.GenotypesPLINK(os.path.join(d, "in.pgen"), log=quiet_log())
-        pg.samples, pg.variants, pg.data = g.samples, g.variants, g.data
-        pg.write()
-        return os.path.join(d, "in.pgen")
-    return path
-
-
-def gobserve(g, is_anc):
-    d = np.asarray(g.data)
-    if d.ndim != 3 or len(g.samples) != d.shape[0] or len(g.variants) != d.shape[1]:
-        raise AssertionError(f"arrays out of step: samples {len(g.samples)} variants {len(g.variants)} data {d.shape}")
-    k = int(d.shape[2])
-    di = d.astype(np.int64)
-    st = {
-        "samples": [int(str(s)[1:]) for s in g.samples],
-        "variants": [[int(str(v["id"])[1:]), int(str(v["chrom"])), int(v["pos"])] for v in g.variants],
-        "rows": [[[int(c[0]), int(c[1]), int(c[2]) if k >= 3 else 0] for c in r] for r in di],
-        "planes": k, "anc": None,
-    }
-    if is_anc:
-        a = np.asarray(g.ancestry)
-        if a.shape[:2] != d.shape[:2]:
-            raise AssertionError(f"ancestry out of step: {a.shape} vs {d.shape}")
-        # population code -> label, through the object's own label table (subset copies share
-        # ancestry_labels with their parent but get no popnum_ancestry)
-        inv = {int(code): POPS.index(lab) for lab, code in g.ancestry_labels.items()}
-        dec = lambda c: inv.get(int(c), 90 + int(c))
-        st["anc"] = [[[dec(c[0]), dec(c[1])] for c in r] for r in a]
-    return st
-
-
-def gfresh_copy(g, is_anc):
-    f = g.__class__(g.fname, g.log)
-    f.samples = tuple(g.samples)
-    f.variants = g.variants.copy()
-    f.data = g.data.copy()
-    if is_anc:
-        f.ancestry = g.ancestry.copy()
-        f.ancestry_labels = dict(g.ancestry_labels)
-        f.popnum_ancestry = dict(g.popnum_ancestry)
-    return f
-
-
-def ids(prefix, l):
-    return None if l is None else [f"{prefix}{x}" for x in l]
-
-
-def gapply(g, op, is_anc, sink=None):
-    """returns the observation {'state':..., 'ret':...}; a returned copy is appended to sink"""
-    k = op["op"]
-    ret = None
-    if k == "read":
-        g.read(samples=None if op["ss"] is None else set(ids("s", op["ss"])),
-               variants=None if op["vs"] is None else set(ids("v", op["vs"])))
-    elif k == "subset":
-        ss = None if op["ss"] is None else tuple(ids("s", op["ss"]))
-        vs = None if op["vs"] is None else tuple(ids("v", op["vs"]))
-        r = g.subset(samples=ss, variants=vs, inplace=op["inplace"])
-        if not op["inplace"]:
-            ret = gobserve(r, is_anc)
-            if sink is not None:
-                sink.append(r)
-    elif k == "index":
-        g.index(samples=op["s"], variants=op["v"])
-    elif k == "missing":
-        g.check_missing(discard_also=True)
-    elif k == "biallelic":
-        g.check_biallelic(discard_also=True)
-    elif k == "maf":
-        with np.errstate(all="ignore"):
-            g.check_maf(threshold=op["thr"], discard_also=True)
-    else:
-        raise RuntimeError("unknown op")
-    return {"state": gobserve(g, is_anc), "ret": ret}
-
-
-def guarded(fn):
-    try:
-        return fn()
-    except AssertionError as e:
-        return {"err": 98, "msg": str(e)[:200]}
-    except Exception as e:  # noqa
-        return {"err": err_kind(e), "msg": f"{type(e).__name__}: {e}"[:200]}
-
-
-def gop_term(op):
-    k = op["op"]
-    if k == "switch":
-        return f"XSwitch {op['k']}%nat"
-    return f"XOn ({gop_term1(op)})"
-
-
-def gop_term1(op):
-    k = op["op"]
-    if k == "read":
-        return f"GRead {optzl(op['ss'])} {optzl(op['vs'])}"
-    if k == "subset":
-        return f"GSubset {optzl(op['ss'])} {optzl(op['vs'])} {L.b(op['inplace'])}"
-    if k == "index":
-        return f"GIndex {L.b(op['s'])} {L.b(op['v'])}"
-    if k == "missing":
-        return "GCheckMissing"
-    if k == "biallelic":
-        return "GCheckBiallelic"
-    return f"GCheckMaf {L.hexfloat(op['thr'])}"
-
-
-def gobs_term(o, sh):
-    if "err" in o:
-        return f"GE {L.z(o['err'])}"
-    r = "None" if o["ret"] is None else f"(Some {sh(o['ret'])})"
-    return f"GO {sh(o['state'])} {r}"
-
-
-def request(rng, universe, present, absent_extra):
-    """an ID request: mostly present IDs, sometimes IDs dropped earlier or never present"""
-    pool = list(present) + list(universe) + [absent_extra]
-    k = int(rng.integers(1, 4))
-    out = []
-    for _ in range(k):
-        x = int(pool[int(rng.integers(0, len(pool)))])
-        if x not in out or rng.random() < 0.04:
-            out.append(x)
-    return out
-
-
-def valid_switches(ops, copying=("subset",)):
-    """every switch addresses object 0 or a copy made by an earlier copying subset"""
-    made = 0
-    for op in ops:
-        if op["op"] == "switch":
-            if not 0 <= op["k"] <= made:
-                return False
-        elif op["op"] in copying and not op.get("inplace", False):
-            made += 1
-    return True
-
-
-def add_switches(rng, ops, p=0.25):
-    """let a random history wander between the object and the copies made so far"""
-    out, made = [], 0
-    for op in ops:
-        if made and rng.random() < p:
-            out.append({"op": "switch", "k": int(rng.integers(0, made + 1))})
-        out.append(op)
-        if op["op"] == "subset" and not op.get("inplace", False):
-            made += 1
-    return out
-
-
-def other_object_lookup(ops):
-    """a by-ID operation on one object after another object of the same history was changed"""
-    focus, changed = 0, set()
-    made = 0
-    for op in ops:
-        k = op["op"]
-        if k == "switch":
-            focus = op["k"]
-        elif k == "subset":
-            if changed - {focus} and made:
-                return True
-            if op.get("inplace"):
-                changed.add(focus)
-            else:
-                made += 1
-        elif k in ("read", "missing", "biallelic", "maf", "append"):
-            changed.add(focus)
-    return False
-
-
-def by_id_after_change(ops, by_id, changing):
-    seen_change = False
-    seen_lookup = False
-    for op in ops:
-        if op["op"] in by_id:
-            if seen_change and seen_lookup:
-                return True
-            seen_lookup = True
-            if op.get("inplace"):
-                seen_change = True
-        elif op["op"] in changing:
-            if seen_lookup:
-                seen_change = True
-    return False
-
-
-class Geno(Relation):
-    name = "geno"
-    coq_module = "C12_Check"
-    coq_check = "check_geno"
-    coq_case_type = "gcase"
-    coq_model = "model_geno"
-    coq_imports = ["GenoTable", "C13_Model", "C12_Model"]
-    budget = {"quick": 350, "thorough": 6000}
-    max_cases_per_shard = 60
-    max_chars_per_shard = 80_000
-    anchors = [
-        ("haptools/data/genotypes.py", "Genotypes.read"),
-        ("haptools/data/genotypes.py", "Genotypes.__iter__"),
-        ("haptools/data/genotypes.py", "Genotypes.index"),
-        ("haptools/data/genotypes.py", "Genotypes.subset"),
-        ("haptools/data/genotypes.py", "GenotypesPLINK.read"),
-        ("haptools/data/genotypes.py", "GenotypesPLINK.read_samples"),
-        ("haptools/data/genotypes.py", "GenotypesPLINK.read_variants"),
-        ("haptools/transform.py", "GenotypesAncestry.read"),
-        ("haptools/transform.py", "GenotypesAncestry.subset"),
-        ("haptools/data/data.py", "Data.read"),
-    ]
-
-    def preamble(self):
-        return "From Coq Require Import PrimFloat.\nOpen Scope Z_scope."
-
-    def gen_file(self, rng, cls):
-        n = int(rng.integers(3, 5))
-        p = int(rng.integers(3, 6))
-        sids = sorted(rng.permutation(7)[:n].tolist()) if rng.random() < 0.5 else rng.permutation(7)[:n].tolist()
-        vids = rng.permutation(7)[:p].tolist()
-        clean = cls == "GenotypesPLINK"
-        rows = []
-        for i in range(n):
-            r = []
-            for j in range(p):
-                a, b = int(rng.integers(0, 2)), int(rng.integers(0, 2))
-                ph = 1
-                if not clean and cls != "GenotypesAncestry":
-                    u = rng.random()
-                    if u < 0.06:
-                        a, b, ph = 255, 255, 0
-                    elif u < 0.12:
-                        a = 2
-                r.append([a, b, ph])
-            rows.append(r)
-        t = {"samples": [int(x) for x in sids], "variants": [[int(vids[j]), 1, 10 + 2 * j] for j in range(p)],
-             "rows": rows, "planes": 3, "anc": None}
-        if cls == "GenotypesAncestry":
-            t["anc"] = [[[int(rng.integers(0, 3)), int(rng.integers(0, 3))] for _ in range(p)] for _ in range(n)]
-        return t
-
-    def gen_ops(self, rng, t):
-        S = t["samples"]
-        V = [v[0] for v in t["variants"]]
-        k = int(rng.integers(1, 9))
-        ops = [{"op": "read", "ss": None, "vs": None}]
-        if rng.random() < 0.3:
-            ops[0] = self._read(rng, S, V)
-        for _ in range(k):
-            u = rng.random()
-            if u < 0.10:
-                ops.append({"op": "read", "ss": None, "vs": None})
-            elif u < 0.30:
-                ops.append(self._read(rng, S, V))
-            elif u < 0.78:
-                which = rng.random()
-                ss = request(rng, S, S, 8) if which < 0.6 else None
-                vs = request(rng, V, V, 8) if which > 0.4 else None
-                ops.append({"op": "subset", "ss": ss, "vs": vs, "inplace": bool(rng.random() < 0.45)})
-            elif u < 0.85:
-                ops.append({"op": "index", "s": bool(rng.random() < 0.7), "v": bool(rng.random() < 0.7)})
-            elif u < 0.90:
-                ops.append({"op": "missing"})
-            elif u < 0.94:
-                ops.append({"op": "biallelic"})
-            else:
-                ops.append({"op": "maf", "thr": float(rng.choice([0.0, 0.2, 0.3, 0.5]))})
-        return ops
-
-    def _read(self, rng, S, V):
-        ss = vs = None
-        u = rng.random()
-        if u < 0.6:
-            ss = sorted(set([int(rng.choice(S))] + [int(x) for x in rng.choice(S + [8], size=int(rng.integers(0, 3)))]))
-        if u > 0.35:
-            vs = sorted(set([int(rng.choice(V))] + [int(x) for x in rng.choice(V + [8], size=int(rng.integers(0, 3)))]))
-        return {"op": "read", "ss": ss, "vs": vs}
-
-    def targeted(self, rng, cls, t):
-        """build an index, change the contents with one chosen mutator, look IDs up"""
-        S = t["samples"]
-        V = [v[0] for v in t["variants"]]
-        n, p = len(S), len(V)
-        build = [{"op": "index", "s": True, "v": True},
-                 {"op": "subset", "ss": [int(rng.choice(S))], "vs": [int(rng.choice(V))], "inplace": False}][int(rng.integers(0, 2))]
-        muts = ["read", "inplace", "maf"]
-        if cls not in ("GenotypesPLINK", "GenotypesAncestry"):
-            muts += ["missing", "biallelic"]
-        m = str(rng.choice(muts))
-        if m == "read":
-            mut = self._read(rng, S, V)
-        elif m == "inplace":
-            mut = {"op": "subset", "ss": request(rng, S, S, 8) if rng.random() < 0.6 else None,
-                   "vs": request(rng, V, V, 8) if rng.random() < 0.6 else None, "inplace": True}
-            if mut["ss"] is None and mut["vs"] is None:
-                mut["vs"] = [int(rng.choice(V))]
-        elif m == "missing":
-            i, j = int(rng.integers(0, n)), int(rng.integers(0, p))
-            t["rows"][i][j] = [255, 255, 0]
-            mut = {"op": "missing"}
-        elif m == "biallelic":
-            i, j = int(rng.integers(0, n)), int(rng.integers(0, p))
-            t["rows"][i][j][int(rng.integers(0, 2))] = 2
-            mut = {"op": "biallelic"}
-        else:
-            j = int(rng.integers(0, p))
-            for i in range(n):
-                t["rows"][i][j][0] = t["rows"][i][j][1] = 0  # a monomorphic variant: MAF 0
-            mut = {"op": "maf", "thr": float(rng.choice([0.1, 0.2, 0.3]))}
-        look = [{"op": "subset", "ss": request(rng, S, S, 8) if rng.random() < 0.7 else None,
-                 "vs": request(rng, V, V, 8) if rng.random() < 0.7 else None, "inplace": bool(rng.random() < 0.3)}
-                for _ in range(int(rng.integers(1, 3)))]
-        for q in look:
-            if q["ss"] is None and q["vs"] is None:
-                q["ss"] = list(S)
-        first = {"op": "read", "ss": None, "vs": None}
-        return [first, build, mut] + look
-
-    def permuted(self, rng, t):
-        """build an index, in-place subset that keeps EVERY current ID but reorders them, look IDs up"""
-        S = list(t["samples"])
-        V = [v[0] for v in t["variants"]]
-        ops = [{"op": "read", "ss": None, "vs": None}]
-        if rng.random() < 0.3:   # start from fewer IDs so that "all current IDs" is not "all file IDs"
-            ops[0] = self._read(rng, S, V)
-            S = [x for x in S if ops[0]["ss"] is None or x in ops[0]["ss"]]
-            V = [x for x in V if ops[0]["vs"] is None or x in ops[0]["vs"]]
-        ops.append([{"op": "index", "s": True, "v": True},
-                    {"op": "subset", "ss": [int(rng.choice(S))], "vs": [int(rng.choice(V))], "inplace": False}][int(rng.integers(0, 2))])
-
-        def perm(l):
-            l = list(l)
-            if len(l) < 2:
-                return l
-            while True:
-                q = [int(x) for x in rng.permutation(l)]
-                if q != l:
-                    return q
-
-        which = rng.random()
-        ss = perm(S) if which < 0.65 else None
-        vs = perm(V) if which > 0.35 else None
-        ops.append({"op": "subset", "ss": ss, "vs": vs, "inplace": True})
-        for _ in range(int(rng.integers(1, 3))):
-            q = {"op": "subset", "ss": request(rng, S, S, 8) if (ss is not None or rng.random() < 0.3) else None,
-                 "vs": request(rng, V, V, 8) if (vs is not None or rng.random() < 0.3) else None,
-                 "inplace": bool(rng.random() < 0.3)}
-            ops.append(q)
-        return ops
-
-    def shared(self, rng, cls, t):
-        """index the object, take a copy that subsets ONE axis, change one of the two objects,
-        look IDs up on the other one (on the axis the copy did not subset, and on the other)"""
-        S = list(t["samples"])
-        V = [v[0] for v in t["variants"]]
-        n, p = len(S), len(V)
-        ops = [{"op": "read", "ss": None, "vs": None}, {"op": "index", "s": True, "v": True}]
-        by_samples = rng.random() < 0.5
-        ops.append({"op": "subset", "ss": request(rng, S, S, 8) if by_samples else None,
-                    "vs": None if by_samples else request(rng, V, V, 8), "inplace": False})
-        change_copy = rng.random() < 0.5
-        if change_copy:
-            ops.append({"op": "switch", "k": 1})
-        muts = ["read", "inplace", "perm"]
-        if cls not in ("GenotypesPLINK", "GenotypesAncestry") and not change_copy:
-            muts += ["biallelic", "missing"]
-        m = str(rng.choice(muts))
-        if m == "read":
-            ops.append(self._read(rng, S, V))
-        elif m == "inplace":
-            ops.append({"op": "subset", "ss": request(rng, S, S, 8) if rng.random() < 0.5 else None,
-                        "vs": request(rng, V, V, 8), "inplace": True})
-        elif m == "perm":
-            ops.append({"op": "subset", "ss": [int(x) for x in rng.permutation(S)] if rng.random() < 0.5 else None,
-                        "vs": [int(x) for x in rng.permutation(V)], "inplace": True})
-        elif m == "missing":
-            t["rows"][int(rng.integers(0, n))][int(rng.integers(0, p))] = [255, 255, 0]
-            ops.append({"op": "missing"})
-        else:
-            t["rows"][int(rng.integers(0, n))][int(rng.integers(0, p))][0] = 2
-            ops.append({"op": "biallelic"})
-        ops.append({"op": "switch", "k": 0 if change_copy else 1})
-        for _ in range(int(rng.integers(1, 3))):
-            ops.append({"op": "subset", "ss": request(rng, S, S, 8) if rng.random() < 0.6 else None,
-                        "vs": request(rng, V, V, 8), "inplace": False})
-        return ops
-
-    def generate(self, rng, n, tier):
-        out = []
-        for i in range(n):
-            cls = GCLASSES[int(rng.integers(0, 4))]
-            t = self.gen_file(rng, cls)
-            u = rng.random()
-            if u < 0.30:
-                ops, kind = self.targeted(rng, cls, t), "targeted"
-            elif u < 0.45:
-                ops, kind = self.permuted(rng, t), "permuted"
-            elif u < 0.60:
-                ops, kind = self.shared(rng, cls, t), "two-objects"
-            else:
-                ops, kind = add_switches(rng, self.gen_ops(rng, t)), "random"
-            out.append({"cls": cls, "file": t, "ops": ops, "kind": kind})
-        return out
-
-    def exhaustive(self, tier):
-        # all histories of length <= 3 after the initial read over a small alphabet, 3 x 3 file
-        import itertools
-
-        t = {"samples": [0, 1, 2], "variants": [[0, 1, 10], [1, 1, 12], [2, 1, 14]],
-             "rows": [[[0, 1, 1], [1, 1, 1], [0, 0, 1]], [[1, 0, 1], [0, 0, 1], [1, 1, 1]], [[1, 1, 1], [0, 1, 1], [1, 0, 1]]],
-             "planes": 3, "anc": None}
-        alpha = [
-            {"op": "read", "ss": None, "vs": None},
-            {"op": "read", "ss": None, "vs": [1, 2]},
-            {"op": "read", "ss": [1, 2], "vs": None},
-            {"op": "subset", "ss": None, "vs": [1], "inplace": False},
-            {"op": "subset", "ss": [1], "vs": None, "inplace": False},
-            {"op": "subset", "ss": None, "vs": [2, 0], "inplace": True},
-            {"op": "subset", "ss": [2, 0], "vs": None, "inplace": True},
-            {"op": "index", "s": True, "v": True},
-            {"op": "subset", "ss": [2, 0, 1], "vs": None, "inplace": True},
-            {"op": "switch", "k": 1},
-            {"op": "switch", "k": 0},
-        ]
-        out = []
-        depth = 3 if tier == "thorough" else 2
-        for k in range(1, depth + 1):
-            for seq in itertools.product(alpha, repeat=k):
-                ops = [alpha[0]] + list(seq)
-                if valid_switches(ops):
-                    out.append({"cls": "GenotypesVCF", "file": t, "ops": ops, "kind": "exhaustive"})
-        return out
-
-    def run_impl(self, inp):
-        import warnings
-
-        warnings.simplefilter("ignore")
-        is_anc = inp["cls"] == "GenotypesAncestry"
-        d = tempfile.mkdtemp(prefix="hv_c12_")
-        try:
-            path = write_geno_file(inp, d)
-            cls = gclass(inp["cls"])
-            kw = {"log": quiet_log()}
-            full = cls(path, **kw)
-            full.read()
-            filetab = gobserve(full, is_anc)
-            objs = [cls(path, **kw)]   # the object and the copies its subsets returned
-            g = objs[0]
-            steps = []
-            for op in inp["ops"]:
-                fresh = None
-                if op["op"] == "switch":
-                    g = objs[op["k"]]
-                    steps.append({"obs": guarded(lambda: {"state": gobserve(g, is_anc), "ret": None}), "fresh": None})
-                    continue
-                if op["op"] == "read":
-                    fo = cls(path, **kw)
-                    fresh = guarded(lambda: gapply(fo, op, is_anc))
-                elif op["op"] == "subset":
-                    fo = gfresh_copy(g, is_anc)
-                    fresh = guarded(lambda: gapply(fo, op, is_anc))
-                o = guarded(lambda: gapply(g, op, is_anc, objs))
-                steps.append({"obs": o, "fresh": fresh})
-                if "err" in o:
-                    break
-            return {"file": filetab, "steps": steps}
-        finally:
-            shutil.rmtree(d, ignore_errors=True)
-
-    def encode(self, inp, obs):
-        sh = Shared()
-        anc = L.b(inp["cls"] == "GenotypesAncestry")
-        if not isinstance(obs, dict) or "steps" not in obs:
-            k = obs.get("kind", 99) if isinstance(obs, dict) else 99
-            return sh.wrap(f"mkgcase {anc} false {sh(inp['file'])} [({gop_term(inp['ops'][0])}, GE {L.z(k)}, None)]")
-        parts = []
-        for op, st in zip(inp["ops"], obs["steps"]):
-            fr = "None" if st["fresh"] is None else f"(Some ({gobs_term(st['fresh'], sh)}))"
-            parts.append(f"({gop_term(op)}, {gobs_term(st['obs'], sh)}, {fr})")
-        return sh.wrap(f"mkgcase {anc} false {sh(obs['file'])} {L.lst(parts)}")
-
-    def nontrivial(self, inp, obs):
-        return (by_id_after_change(inp["ops"], {"subset"}, {"read", "missing", "biallelic", "maf"})
-                or other_object_lookup(inp["ops"]))
-
-    def classes(self, inp, obs):
-        out = [inp["cls"], f"len={len(inp['ops'])}", f"stream={inp.get('kind', 'corpus')}"]
-        if other_object_lookup(inp["ops"]):
-            out.append("lookup-after-other-object-changed")
-        out += sorted({op["op"] + ("-inplace" if op.get("inplace") else "") for op in inp["ops"]})
-        if isinstance(obs, dict) and "steps" in obs:
-            for st in obs["steps"]:
-                if "err" in st["obs"]:
-                    out.append(f"ended-by-err{st['obs']['err']}")
-            if any(op["op"] == "subset" and st["obs"].get("ret") is not None and
-                   len(st["obs"]["ret"]["samples"]) < len(op["ss"] or []) for op, st in zip(inp["ops"], obs["steps"])):
-                out.append("requested-id-absent")
-        return out
-
-    def shrink(self, inp):
-        for c in self._shrink(inp):
-            if valid_switches(c["ops"]):
-                yield c
-
-    def _shrink(self, inp):
-        ops = inp["ops"]
-        for j in range(1, len(ops)):
-            yield dict(inp, ops=ops[:j] + ops[j + 1:])
-        if inp["cls"] != "GenotypesVCF" and inp["cls"] != "GenotypesAncestry":
-            yield dict(inp, cls="GenotypesVCF")
-        for j, op in enumerate(ops):
-            for key in ("ss", "vs"):
-                if op.get(key) and len(op[key]) > 1:
-                    for q in range(len(op[key])):
-                        yield dict(inp, ops=ops[:j] + [dict(op, **{key: op[key][:q] + op[key][q + 1:]})] + ops[j + 1:])
-                if op.get(key) is not None and op["op"] == "subset" and (op["ss"] is not None and op["vs"] is not None):
-                    yield dict(inp, ops=ops[:j] + [dict(op, **{key: None})] + ops[j + 1:])
-
-    def mutate(self, inp, rng):
-        ops = inp["ops"]
-        V = [v[0] for v in inp["file"]["variants"]]
-        S = inp["file"]["samples"]
-        for _ in range(10):
-            extra = [self._read(rng, S, V), {"op": "subset", "ss": None, "vs": request(rng, V, V, 8), "inplace": False}]
-            yield dict(inp, ops=ops + extra)
-
-    def signature(self, inp, obs):
-        return f"geno {self._sig(inp, obs)}"
-
-    def _sig(self, inp, obs):
-        if not isinstance(obs, dict) or "steps" not in obs:
-            return "harness-level failure"
-        reread = False
-        seen_lookup = False
-        for j, (op, st) in enumerate(zip(inp["ops"], obs["steps"])):
-            if st["fresh"] is not None and st["fresh"] != st["obs"]:
-                what = "wrong exception" if "err" in st["obs"] else "wrong rows/columns"
-                if op["op"] == "read":
-                    return "re-read object differs from a freshly read one"
-                if other_object_lookup(inp["ops"][:j + 1]):
-                    return f"by-ID subset on one object after its copy/parent was changed differs from a fresh object's ({what})"
-                return f"by-ID subset after {'a re-read' if reread else 'earlier operations'} differs from a fresh object's ({what})"
-            if op["op"] == "read" and seen_lookup:
-                reread = True
-            if op["op"] in ("subset", "index"):
-                seen_lookup = True
-        return "history object and model disagree"
-
-
-# ---------------------------------------------------------------------------
-# phenotypes
-
-
-def pclass(name):
-    from haptools import data as hd
-
-    return {"Phenotypes": hd.Phenotypes, "Covariates": hd.Covariates}[name]
-
-
-def pobserve(p):
-    d = np.asarray(p.data)
-    if d.ndim != 2 or d.shape[0] != len(p.samples) or d.shape[1] != len(p.names):
-        raise AssertionError(f"arrays out of step: samples {len(p.samples)} names {len(p.names)} data {d.shape}")
-    rows = []
-    for r in d.tolist():
-        rr = []
-        for x in r:
-            if float(x) != int(x):
-                raise AssertionError("non-integer value")
-            rr.append(int(x))
-        rows.append(rr)
-    return {"samples": [int(str(s)[1:]) for s in p.samples], "names": [int(str(s)[1:]) for s in p.names], "rows": rows}
-
-
-def pfresh_copy(p):
-    f = p.__class__(p.fname, p.log)
-    f.samples = tuple(p.samples)
-    f.names = tuple(p.names)
-    f.data = p.data.copy()
-    return f
-
-
-def papply(p, op, sink=None):
-    k = op["op"]
-    ret = None
-    if k == "read":
-        p.read(samples=None if op["ss"] is None else set(ids("s", op["ss"])))
-    elif k == "subset":
-        ss = None if op["ss"] is None else tuple(ids("s", op["ss"]))
-        ns = None if op["ns"] is None else tuple(ids("p", op["ns"]))
-        r = p.subset(samples=ss, names=ns, inplace=op["inplace"])
-        if not op["inplace"]:
-            ret = pobserve(r)
-            if sink is not None:
-                sink.append(r)
-    elif k == "index":
-        p.index(samples=op["s"], names=op["n"])
-    elif k == "missing":
-        p.check_missing(discard_also=True)
-    elif k == "append":
-        p.append(f"p{op['name']}", np.array(op["col"], dtype=np.float64))
-    else:
-        raise RuntimeError("unknown op")
-    return {"state": pobserve(p), "ret": ret}
-
-
-def ptab_term(t):
-    return f"(mkp {L.zl(t['samples'])} {L.zl(t['names'])} {L.lst(t['rows'], L.zl)})"
-
-
-class PShared(Shared):
-    def __call__(self, t):
-        key = ptab_term(t)
-        if key not in self.names:
-            self.names[key] = f"t{len(self.names)}"
-            self.defs.append((self.names[key], key))
-        return self.names[key]
-
-
-def pop_term(op):
-    k = op["op"]
-    if k == "switch":
-        return f"XSwitch {op['k']}%nat"
-    return f"XOn ({pop_term1(op)})"
-
-
-def pop_term1(op):
-    k = op["op"]
-    if k == "read":
-        return f"PRead {optzl(op['ss'])}"
-    if k == "subset":
-        return f"PSubset {optzl(op['ss'])} {optzl(op['ns'])} {L.b(op['inplace'])}"
-    if k == "index":
-        return f"PIndex {L.b(op['s'])} {L.b(op['n'])}"
-    if k == "missing":
-        return "PCheckMissing"
-    return f"PAppend {L.z(op['name'])} {L.zl(op['col'])}"
-
-
-def pobs_term(o, sh):
-    if "err" in o:
-        return f"PE {L.z(o['err'])}"
-    r = "None" if o["ret"] is None else f"(Some {sh(o['ret'])})"
-    return f"PO {sh(o['state'])} {r}"
-
-
-class Pheno(Relation):
-    name = "pheno"
-    coq_module = "C12_Check"
-    coq_check = "check_pheno"
-    coq_case_type = "pcase"
-    coq_model = "model_pheno"
-    coq_imports = ["GenoTable", "C13_Model", "C12_Model"]
-    budget = {"quick": 300, "thorough": 6000}
-    max_cases_per_shard = 100
-    max_chars_per_shard = 80_000
-    anchors = [
-        ("haptools/data/phenotypes.py", "Phenotypes.read"),
-        ("haptools/data/phenotypes.py", "Phenotypes.index"),
-        ("haptools/data/phenotypes.py", "Phenotypes.subset"),
-        ("haptools/data/phenotypes.py", "Phenotypes.append"),
-        ("haptools/data/phenotypes.py", "Phenotypes.check_missing"),
-    ]
-
-    def generate(self, rng, n, tier):
-        out = []
-        for i in range(n):
-            ns, nn = int(rng.integers(3, 5)), int(rng.integers(2, 4))
-            S = rng.permutation(7)[:ns].tolist()
-            N = rng.permutation(5)[:nn].tolist()
-            rows = [[int(rng.choice([-9, 0, 1, 2, 3, 5, 7, -1], p=[.08, .12, .15, .15, .15, .15, .1, .1])) for _ in range(nn)]
-                    for _ in range(ns)]
-            f = {"samples": [int(x) for x in S], "names": [int(x) for x in N], "rows": rows}
-            ops = [{"op": "read", "ss": None}]
-            cur_n = ns  # tracked only to give appended columns the right length most of the time
-            nxt = 5
-            for _ in range(int(rng.integers(1, 9))):
-                u = rng.random()
-                if u < 0.10:
-                    ops.append({"op": "read", "ss": None})
-                elif u < 0.28:
-                    ss = sorted(set([int(rng.choice(S))] + [int(x) for x in rng.choice(S + [8], size=int(rng.integers(0, 3)))]))
-                    ops.append({"op": "read", "ss": ss})
-                elif u < 0.72:
-                    which = rng.random()
-                    ss = request(rng, S, S, 8) if which < 0.6 else None
-                    nsq = request(rng, N + [5, 6], N, 9) if which > 0.4 else None
-                    ops.append({"op": "subset", "ss": ss, "ns": nsq, "inplace": bool(rng.random() < 0.45)})
-                elif u < 0.80:
-                    ops.append({"op": "index", "s": bool(rng.random() < 0.7), "n": bool(rng.random() < 0.7)})
-                elif u < 0.87:
-                    ops.append({"op": "missing"})
-                else:
-                    ops.append({"op": "append", "name": nxt, "col": None})
-                    nxt += 1
-            kind = "random"
-            u0 = rng.random()
-            if u0 >= 0.65:
-                ops = add_switches(rng, ops)
-            elif u0 < 0.15:
-                kind = "permuted"
-                # build an index, in-place subset keeping EVERY current ID but reordered, look IDs up
-                def perm(l):
-                    l = list(l)
-                    while True:
-                        q = [int(x) for x in rng.permutation(l)]
-                        if q != l or len(l) < 2:
-                            return q
-                which = rng.random()
-                pss = perm(S) if which < 0.65 else None
-                pns = perm(N) if which > 0.35 else None
-                build = [{"op": "index", "s": True, "n": True},
-                         {"op": "subset", "ss": [int(rng.choice(S))], "ns": [int(rng.choice(N))], "inplace": False}][int(rng.integers(0, 2))]
-                ops = [{"op": "read", "ss": None}, build, {"op": "subset", "ss": pss, "ns": pns, "inplace": True}]
-                for _ in range(int(rng.integers(1, 3))):
-                    ops.append({"op": "subset", "ss": request(rng, S, S, 8) if (pss is not None or rng.random() < 0.3) else None,
-                                "ns": request(rng, N, N, 9) if (pns is not None or rng.random() < 0.3) else None,
-                                "inplace": bool(rng.random() < 0.3)})
-            elif u0 < 0.35:
-                kind = "two-objects"
-                # names and/or samples indexed on the parent; a copy that subsets ONE axis; one of the two
-                # objects (or both) changes - append, in-place subset, re-read, discard; by-ID look-ups on the OTHER
-                build = [{"op": "index", "s": True, "n": True}, {"op": "index", "s": False, "n": True},
-                         {"op": "subset", "ss": None, "ns": [int(rng.choice(N))], "inplace": False}][int(rng.integers(0, 3))]
-                ops = [{"op": "read", "ss": None}, build]
-                made = 1 if build["op"] == "subset" else 0
-                by_samples = rng.random() < 0.7
-                ops.append({"op": "subset", "ss": request(rng, S, S, 8) if by_samples else None,
-                            "ns": None if by_samples else request(rng, N, N, 9), "inplace": False})
-                made += 1
-                copy_k = made
-                first, second = (copy_k, 0) if rng.random() < 0.5 else (0, copy_k)
-
-                def change(name):
-                    m = str(rng.choice(["append", "append", "append", "inplace", "read", "missing"]))
-                    if m == "append":
-                        return {"op": "append", "name": name, "col": None}
-                    if m == "inplace":
-                        return {"op": "subset", "ss": None, "ns": [int(x) for x in rng.permutation(N)][:int(rng.integers(1, nn + 1))], "inplace": True}
-                    if m == "read":
-                        return {"op": "read", "ss": sorted({int(rng.choice(S)), int(rng.choice(S))})}
-                    return {"op": "missing"}
-
-                ops += [{"op": "switch", "k": first}, change(5)]
-                if rng.random() < 0.5:
-                    ops += [{"op": "switch", "k": second}, change(6)]
-                else:
-                    ops += [{"op": "switch", "k": second}]
-                for _ in range(int(rng.integers(1, 3))):
-                    ops.append({"op": "subset", "ss": request(rng, S, S, 8) if rng.random() < 0.3 else None,
-                                "ns": request(rng, N + [5, 6], N + [5, 6], 9), "inplace": False})
-                if rng.random() < 0.5:
-                    ops += [{"op": "switch", "k": first},
-                            {"op": "subset", "ss": None, "ns": request(rng, N + [5, 6], N + [5, 6], 9), "inplace": False}]
-            elif u0 < 0.65:
-                kind = "targeted"
-                # build an index, change the contents with one chosen mutator, look IDs up
-                build = [{"op": "index", "s": True, "n": True},
-                         {"op": "subset", "ss": [int(rng.choice(S))], "ns": [int(rng.choice(N))], "inplace": False}][int(rng.integers(0, 2))]
-                m = str(rng.choice(["read", "inplace", "missing", "append"]))
-                if m == "read":
-                    mut = {"op": "read", "ss": sorted({int(rng.choice(S)), int(rng.choice(S))})}
-                elif m == "inplace":
-                    mut = {"op": "subset", "ss": request(rng, S, S, 8) if rng.random() < 0.6 else None,
-                           "ns": request(rng, N, N, 9) if rng.random() < 0.6 else None, "inplace": True}
-                    if mut["ss"] is None and mut["ns"] is None:
-                        mut["ns"] = [int(rng.choice(N))]
-                elif m == "missing":
-                    rows[int(rng.integers(0, ns))][int(rng.integers(0, nn))] = -9
-                    mut = {"op": "missing"}
-                else:
-                    mut = {"op": "append", "name": 5, "col": None}
-                look = [{"op": "subset", "ss": request(rng, S, S, 8) if rng.random() < 0.7 else None,
-                         "ns": request(rng, N + [5], N, 9) if rng.random() < 0.7 else None, "inplace": bool(rng.random() < 0.3)}
-                        for _ in range(int(rng.integers(1, 3)))]
-                for q in look:
-                    if q["ss"] is None and q["ns"] is None:
-                        q["ss"] = list(S)
-                ops = [{"op": "read", "ss": None}, build, mut] + look
-            out.append({"cls": ["Phenotypes", "Covariates"][int(rng.integers(0, 2))], "file": f, "ops": ops,
-                        "seed": int(rng.integers(0, 2**31)), "kind": kind})
-        return out
-
-    def run_impl(self, inp):
-        import warnings
-
-        warnings.simplefilter("ignore")
-        d = tempfile.mkdtemp(prefix="hv_c12_")
-        try:
-            f = inp["file"]
-            ext = "pheno" if inp["cls"] == "Phenotypes" else "covar"
-            path = os.path.join(d, f"in.{ext}")
-            with open(path, "w") as fh:
-                fh.write("#IID\t" + "\t".join(f"p{x}" for x in f["names"]) + "\n")
-                for s, r in zip(f["samples"], f["rows"]):
-                    fh.write(f"s{s}\t" + "\t".join(str(x) for x in r) + "\n")
-            cls = pclass(inp["cls"])
-            objs = [cls(path, log=quiet_log())]   # the object and the copies its subsets returned
-            p = objs[0]
-            rng = np.random.default_rng(inp.get("seed", 0))
-            steps, ops_done = [], []
-            for op in inp["ops"]:
-                if op["op"] == "switch":
-                    p = objs[op["k"]]
-                    steps.append({"obs": guarded(lambda: {"state": pobserve(p), "ret": None}), "fresh": None})
-                    ops_done.append(op)
-                    continue
-                if op["op"] == "append" and op.get("col") is None:
-                    # a column of the current length (3% of the time one too long: ValueError)
-                    n = len(p.samples) + (1 if rng.random() < 0.03 else 0)
-                    op = dict(op, col=[int(x) for x in rng.integers(-3, 9, size=n)])
-                fresh = None
-                if op["op"] == "read":
-                    fo = cls(path, log=quiet_log())
-                    fresh = guarded(lambda: papply(fo, op))
-                elif op["op"] == "subset":
-                    fo = pfresh_copy(p)
-                    fresh = guarded(lambda: papply(fo, op))
-                o = guarded(lambda: papply(p, op, objs))
-                steps.append({"obs": o, "fresh": fresh})
-                ops_done.append(op)
-                if "err" in o:
-                    break
-            return {"steps": steps, "ops": ops_done}
-        finally:
-            shutil.rmtree(d, ignore_errors=True)
-
-    def encode(self, inp, obs):
-        sh = PShared()
-        if not isinstance(obs, dict) or "steps" not in obs:
-            k = obs.get("kind", 99) if isinstance(obs, dict) else 99
-            return sh.wrap(f"mkpcase false {sh(inp['file'])} [(PRead None, PE {L.z(k)}, None)]")
-        parts = []
-        for op, st in zip(obs["ops"], obs["steps"]):
-            fr = "None" if st["fresh"] is None else f"(Some ({pobs_term(st['fresh'], sh)}))"
-            parts.append(f"({pop_term(op)}, {pobs_term(st['obs'], sh)}, {fr})")
-        return sh.wrap(f"mkpcase false {sh(inp['file'])} {L.lst(parts)}")
-
-    def nontrivial(self, inp, obs):
-        return (by_id_after_change(inp["ops"], {"subset"}, {"read", "missing", "append"})
-                or other_object_lookup(inp["ops"]))
-
-    def classes(self, inp, obs):
-        out = [inp["cls"], f"len={len(inp['ops'])}", f"stream={inp.get('kind', 'corpus')}"]
-        if other_object_lookup(inp["ops"]):
-            out.append("lookup-after-other-object-changed")
-        out += sorted({op["op"] + ("-inplace" if op.get("inplace") else "") for op in inp["ops"]})
-        if isinstance(obs, dict) and "steps" in obs:
-            for st in obs["steps"]:
-                if "err" in st["obs"]:
-                    out.append(f"ended-by-err{st['obs']['err']}")
-        return out
-
-    def shrink(self, inp):
-        for c in self._shrink(inp):
-            if valid_switches(c["ops"]):
-                yield c
-
-    def _shrink(self, inp):
-        ops = inp["ops"]
-        for j in range(1, len(ops)):
-            yield dict(inp, ops=ops[:j] + ops[j + 1:])
-        for j, op in enumerate(ops):
-            for key in ("ss", "ns"):
-                if op.get(key) and len(op[key]) > 1:
-                    for q in range(len(op[key])):
-                        yield dict(inp, ops=ops[:j] + [dict(op, **{key: op[key][:q] + op[key][q + 1:]})] + ops[j + 1:])
-                if op["op"] == "subset" and op.get("ss") is not None and op.get("ns") is not None:
-                    yield dict(inp, ops=ops[:j] + [dict(op, **{key: None})] + ops[j + 1:])
-
-    def mutate(self, inp, rng):
-        S = inp["file"]["samples"]
-        for _ in range(10):
-            extra = [{"op": "read", "ss": [int(rng.choice(S))]},
-                     {"op": "subset", "ss": request(rng, S, S, 8), "ns": None, "inplace": False}]
-            yield dict(inp, ops=inp["ops"] + extra)
-
-    def signature(self, inp, obs):
-        if not isinstance(obs, dict) or "steps" not in obs:
-            return "pheno harness-level failure"
-        reread = False
-        seen_lookup = False
-        for j, (op, st) in enumerate(zip(obs["ops"], obs["steps"])):
-            if st["fresh"] is not None and st["fresh"] != st["obs"]:
-                what = "wrong exception" if "err" in st["obs"] else "wrong rows/columns"
-                if op["op"] == "read":
-                    return "pheno re-read object differs from a freshly read one"
-                if other_object_lookup(obs["ops"][:j + 1]):
-                    return f"pheno by-ID subset on one object after its copy/parent was changed differs from a fresh object's ({what})"
-                return f"pheno by-ID subset after {'a re-read' if reread else 'earlier operations'} differs from a fresh object's ({what})"
-            if op["op"] == "read" and seen_lookup:
-                reread = True
-            if op["op"] in ("subset", "index"):
-                seen_lookup = True
-        return "pheno history object and model disagree"
-
-
-# ---------------------------------------------------------------------------
-# haplotypes
-
-HAP_IDS = {1: "H1", 2: "H2", 3: "H3", 4: "H4", 5: "H5", 11: "R1", 12: "R2"}
-HAP_NUM = {v: k for k, v in HAP_IDS.items()}
-NVAR = 6
-
-
-def hobserve_data(h):
-    from haptools.data import Haplotype
-
-    out = []
-    for key, rec in h.data.items():
-        if key != rec.id:
-            raise AssertionError("dict key differs from record id")
-        is_hap = isinstance(rec, Haplotype)
-        vs = sorted(int(v.id[1:]) for v in rec.variants) if is_hap else []
-        out.append([HAP_NUM[rec.id], bool(is_hap), int(rec.chrom), int(rec.start), int(rec.end), vs])
-    return out
-
-
-def hfresh_copy(h):
-    f = h.__class__(h.fname, log=h.log)
-    f.data = {k: copy.deepcopy(v) for k, v in h.data.items()}
-    return f
-
-
-def transform_gts():
-    from haptools import data as hd
-
-    g = hd.GenotypesVCF(fname=None, log=quiet_log())
-    g.samples = ("s0", "s1")
-    g.variants = np.array([(f"v{j}", "1", 10 + j, ("A", "T")) for j in range(NVAR)], dtype=g.variants.dtype)
-    g.data = np.array([[[(i + j) % 2, (i * j) % 2] for j in range(NVAR)] for i in range(2)], dtype=np.uint8)
-    return g
-
-
-def happly(h, op):
-    k = op["op"]
-    ret = None
-    if k == "read":
-        h.read(haplotypes=None if op["ids"] is None else {HAP_IDS[x] for x in op["ids"]})
-    elif k == "subset":
-        r = h.subset(haplotypes=tuple(HAP_IDS[x] for x in op["ids"]), inplace=op["inplace"])
-        if not op["inplace"]:
-            ret = {"copy": hobserve_data(r)}
-    elif k == "sort":
-        h.sort()
-    elif k == "index":
-        h.index()
-    elif k == "transform":
-        r = h.transform(transform_gts())
-        ret = {"haps": [HAP_NUM[str(x)] for x in r.variants["id"]]}
-    else:
-        raise RuntimeError("unknown op")
-    return {"state": hobserve_data(h), "ret": ret}
-
-
-def hrec_term(r):
-    return f"mkh {r[0]} {L.b(r[1])} {r[2]} {r[3]} {r[4]} {L.zl(r[5])}"
-
-
-def hdata_term(d):
-    return L.lst(d, hrec_term)
-
-
-class HShared(Shared):
-    def __call__(self, t):
-        key = hdata_term(t)
-        if key not in self.names:
-            self.names[key] = f"d{len(self.names)}"
-            self.defs.append((self.names[key], key))
-        return self.names[key]
-
-
-def hop_term(op):
-    k = op["op"]
-    if k == "read":
-        return f"HRead {optzl(op['ids'])}"
-    if k == "subset":
-        return f"HSubset {L.zl(op['ids'])} {L.b(op['inplace'])}"
-    return {"sort": "HSort", "index": "HIndex", "transform": "HTransform"}[k]
-
-
-def hobs_term(o, sh):
-    if "err" in o:
-        return f"HE {L.z(o['err'])}"
-    r = o["ret"]
-    if r is None:
-        rt = "HNone"
-    elif "copy" in r:
-        rt = f"(HCopy {sh(r['copy'])})"
-    else:
-        rt = f"(HHaps {L.zl(r['haps'])})"
-    return f"HO {sh(o['state'])} {rt}"
-
-
-class Haps(Relation):
-    name = "haps"
-    coq_module = "C12_Check"
-    coq_check = "check_haps"
-    coq_case_type = "hcase"
-    coq_model = "model_haps"
-    coq_imports = ["GenoTable", "C13_Model", "C12_Model"]
-    budget = {"quick": 300, "thorough": 6000}
-    max_cases_per_shard = 100
-    max_chars_per_shard = 80_000
-    anchors = [
-        ("haptools/data/haplotypes.py", "Haplotypes.read"),
-        ("haptools/data/haplotypes.py", "Haplotypes.index"),
-        ("haptools/data/haplotypes.py", "Haplotypes.subset"),
-        ("haptools/data/haplotypes.py", "Haplotypes.sort"),
-        ("haptools/data/haplotypes.py", "Haplotypes.transform"),
-    ]
-
-    def generate(self, rng, n, tier):
-        out = []
-        for i in range(n):
-            k = int(rng.integers(3, 7))
-            keys = rng.permutation(list(HAP_IDS))[:k].tolist()
-            recs = []
-            for x in keys:
-                is_hap = x < 10
-                start = int(rng.choice([10, 10, 12, 14]))
-                end = start + int(rng.choice([2, 2, 4]))
-                vs = sorted(rng.permutation(NVAR)[:int(rng.integers(1, 4))].tolist()) if is_hap else []
-                recs.append([int(x), bool(is_hap), int(rng.integers(1, 3)), start, end, [int(v) for v in vs]])
-            ops = [{"op": "read", "ids": None}]
-            if rng.random() < 0.3:
-                ops[0] = {"op": "read", "ids": sorted({int(rng.choice(keys)), int(rng.choice(keys))})}
-            for _ in range(int(rng.integers(1, 9))):
-                u = rng.random()
-                if u < 0.10:
-                    ops.append({"op": "read", "ids": None})
-                elif u < 0.30:
-                    ops.append({"op": "read", "ids": sorted(set([int(rng.choice(keys))] + [int(x) for x in rng.choice(keys + [5, 12], size=int(rng.integers(0, 3)))]))})
-                elif u < 0.55:
-                    ops.append({"op": "subset", "ids": request(rng, keys, keys, 12), "inplace": bool(rng.random() < 0.5)})
-                elif u < 0.65:
-                    ops.append({"op": "sort"})
-                elif u < 0.72:
-                    ops.append({"op": "index"})
-                else:
-                    ops.append({"op": "transform"})
-            if rng.random() < 0.4:
-                # let type_ids be built, change the contents with one chosen mutator, use type_ids
-                build = [{"op": "index"}, {"op": "transform"}][int(rng.integers(0, 2))]
-                m = str(rng.choice(["read", "inplace", "sort"]))
-                if m == "read":
-                    mut = {"op": "read", "ids": sorted({int(rng.choice(keys)), int(rng.choice(keys))})}
-                elif m == "inplace":
-                    mut = {"op": "subset", "ids": request(rng, keys, keys, 12), "inplace": True}
-                else:
-                    mut = {"op": "sort"}
-                ops = [ops[0], build, mut, {"op": "transform"}]
-                if rng.random() < 0.5:
-                    ops.append({"op": "subset", "ids": request(rng, keys, keys, 12), "inplace": False})
-            out.append({"file": recs, "ops": ops})
-        return out
-
-    def run_impl(self, inp):
-        import warnings
-
-        from haptools import data as hd
-
-        warnings.simplefilter("ignore")
-        d = tempfile.mkdtemp(prefix="hv_c12_")
-        try:
-            path = os.path.join(d, "in.hap")
-            with open(path, "w") as fh:
-                fh.write("#\tversion\t0.2.0\n")
-                for r in inp["file"]:
-                    fh.write(f"{'H' if r[1] else 'R'}\t{r[2]}\t{r[3]}\t{r[4]}\t{HAP_IDS[r[0]]}\n")
-                for r in inp["file"]:
-                    for v in r[5]:
-                        fh.write(f"V\t{HAP_IDS[r[0]]}\t{10 + v}\t{11 + v}\tv{v}\t{'AT'[v % 2]}\n")
-            h = hd.Haplotypes(path, log=quiet_log())
-            steps = []
-            for op in inp["ops"]:
-                fresh = None
-                if op["op"] == "read":
-                    fo = hd.Haplotypes(path, log=quiet_log())
-                    fresh = guarded(lambda: happly(fo, op))
-                elif op["op"] in ("subset", "transform"):
-                    fo = hfresh_copy(h)
-                    fresh = guarded(lambda: happly(fo, op))
-                o = guarded(lambda: happly(h, op))
-                steps.append({"obs": o, "fresh": fresh})
-                if "err" in o:
-                    break
-            return {"steps": steps}
-        finally:
-            shutil.rmtree(d, ignore_errors=True)
-
-    def encode(self, inp, obs):
-        sh = HShared()
-        if not isinstance(obs, dict) or "steps" not in obs:
-            k = obs.get("kind", 99) if isinstance(obs, dict) else 99
-            return sh.wrap(f"mkhcase false {sh(inp['file'])} [(HIndex, HE {L.z(k)}, None)]")
-        parts = []
-        for op, st in zip(inp["ops"], obs["steps"]):
-            fr = "None" if st["fresh"] is None else f"(Some ({hobs_term(st['fresh'], sh)}))"
-            parts.append(f"({hop_term(op)}, {hobs_term(st['obs'], sh)}, {fr})")
-        return sh.wrap(f"mkhcase false {sh(inp['file'])} {L.lst(parts)}")
-
-    def nontrivial(self, inp, obs):
-        return by_id_after_change(inp["ops"], {"subset", "transform"}, {"read", "sort"})
-
-    def classes(self, inp, obs):
-        out = [f"len={len(inp['ops'])}"]
-        out += sorted({op["op"] + ("-inplace" if op.get("inplace") else "") for op in inp["ops"]})
-        if isinstance(obs, dict) and "steps" in obs:
-            for st in obs["steps"]:
-                if "err" in st["obs"]:
-                    out.append(f"ended-by-err{st['obs']['err']}")
-        return out
-
-    def shrink(self, inp):
-        ops = inp["ops"]
-        for j in range(1, len(ops)):
-            yield dict(inp, ops=ops[:j] + ops[j + 1:])
-        if len(inp["file"]) > 1:
-            for j in range(len(inp["file"])):
-                yield dict(inp, file=inp["file"][:j] + inp["file"][j + 1:])
-        for j, op in enumerate(ops):
-            if op.get("ids") and len(op["ids"]) > 1:
-                for q in range(len(op["ids"])):
-                    yield dict(inp, ops=ops[:j] + [dict(op, ids=op["ids"][:q] + op["ids"][q + 1:])] + ops[j + 1:])
-
-    def mutate(self, inp, rng):
-        keys = [r[0] for r in inp["file"]]
-        for _ in range(10):
-            yield dict(inp, ops=inp["ops"] + [{"op": "read", "ids": [int(rng.choice(keys))]}, {"op": "transform"}])
-
-    def signature(self, inp, obs):
-        if not isinstance(obs, dict) or "steps" not in obs:
-            return "haps harness-level failure"
-        nread = 0
-        for op, st in zip(inp["ops"], obs["steps"]):
-            if st["fresh"] is not None and st["fresh"] != st["obs"]:
-                what = "exception" if "err" in st["obs"] else "wrong haplotype list"
-                return f"haps {op['op']} after {'a re-read' if nread > 1 else 'earlier operations'} differs from a fresh object's ({what})"
-            if op["op"] == "read":
-                nread += 1
-        return "haps history object and model disagree"
-
 
 RELATIONS = [Geno(), Pheno(), Haps()]
 
@@ -1236,17 +72,26 @@ LEVEL_TEXT = (
     "Coq refinement proof: concrete objects carrying explicit ID->position caches (snapshots of the ID list they were "
     "built from) versus cache-free abstract tables whose by-ID lookups search the current IDs; invariant cache_valid "
     "(cache absent, or equal to the current duplicate-free IDs) is established by the constructor and preserved by "
-    "every operation; hence for every finite history and every by-ID query the concrete run shows exactly what the "
-    "abstract run shows (contents, returned copies, exception kinds) - for genotypes (all four classes' operations), "
-    "phenotypes/covariates and haplotypes objects. The model is tied to /repo on every run: random histories are "
-    "applied to the real objects of all seven classes and every step's observation is compared, inside Coq, with the "
-    "model and with a fresh object built from the same logical content."
+    "every operation; hence for every finite history over an object, the copies its subsets return and the objects "
+    "merge_variants / merge build, and every by-ID query (subset, PhenoSimulator.run, transform), the concrete run shows "
+    "exactly what the abstract run shows (contents, returned objects, query results, exception kinds) - for genotypes "
+    "(all classes' operations), phenotypes/covariates and haplotypes objects; a separate specification theorem says "
+    "what the abstract by-ID subset returns (exactly the rows / columns held under the requested IDs, request order, "
+    "absent IDs dropped). Histories that go on after a caught ValueError: proved for index() as repaired "
+    "(C12_refines_geno_poolx, C12_refines_pheno_poolx_fixed) and refuted for the tree as it is "
+    "(C12_index_failure_poisons_refuted, C12_append_present_refuted); the histories that stop at the first exception "
+    "are proved for the tree as it is. The model is tied to /repo on every run: random histories are applied to the "
+    "real objects of nine classes and every step's observation is compared, inside Coq, with the model and with fresh "
+    "objects built from the same logical content."
 )
 LEVEL_NOTE = (
     "Trusted: Coq kernel/vm_compute; the hand-written model (validated differentially on every run); file readers "
     "(the model's file content is what a fresh full read returns); the harness's construction of fresh objects. "
-    "Histories end at the first exception. Merge operations and PhenoSimulator.run are not in the model "
-    "(merge_variants/merge build a new object whose caches start empty; PhenoSimulator.run looks IDs up through "
-    "subset(), which is modelled). Phenotypes.append of an already present name is outside the theorem's precondition."
+    "Two findings are open in /repo (switches STRICT_INDEX_AFTER_DUPLICATES, STRICT_APPEND_PRESENT_NAME, off by "
+    "default): with them off, holds skips the operations applied to an object after its index() raised / after a "
+    "present name was appended to it, and the theorem that covers the checked model there is the refinement of the "
+    "histories cut at the first exception (C12_pool_run_is_cut) resp. C12_refines_pheno_pool under fresh_appends_pool. "
+    "Not covered: GenotypesPLINKTR, reading GenotypesTR from a file, log messages (the 'fewer than requested' warning "
+    "is observed only as absence from the result)."
 )
 TECHNIQUE = "Coq refinement proof (invariant + induction over histories) + vm_compute-evaluated correspondence against the implementation"
